@@ -380,10 +380,30 @@ def shrink_map(pairs, fails):
     return pairs
 
 
+def judge_one(kind, case):
+    m = [(k, x) for k, x in case["map"]]
+    return judge_map(m) if kind == "map" else judge_api(m, case.get("how", "same"))
+
+
+def judge_case(kind, case):
+    """one unit map (kind map / api), or a session: several of them printed one after the other in ONE fresh library
+    state, the last one judged (state the library keeps between calls thereby becomes part of the input)"""
+    core.fresh_impl()
+    U.clear_global_state()
+    if "session" in case:
+        why = None
+        for k, c in case["session"]:
+            why = judge_one(k, c)
+        return "after {} earlier unit(s) printed in the same interpreter: {}".format(len(case["session"]) - 1, why) if why else None
+    return judge_one(kind, case)
+
+
 def search(ctx, suspects, budget):
     t0 = time.time()
+    core.fresh_impl()
     U.clear_global_state()
     out, classes = [], set()
+    journal = []
 
     def report(kind, case, why):
         import re
@@ -393,12 +413,44 @@ def search(ctx, suspects, budget):
         classes.add(cls)
         out.append(Violation(ID, kind, case, why))
 
+    def examine(kind, m, how=None):
+        """judge one map in the running process; a failure is then re-established from a fresh library state: alone
+        (and shrunk, every candidate judged from a fresh state), or else together with the shortest run of earlier cases"""
+        nonlocal journal
+        case = {"map": [[k, v] for k, v in m]}
+        if how:
+            case["how"] = how
+        why = judge_one(kind, case)
+        if not why:
+            journal.append([kind, case])
+            return
+        if judge_case(kind, case):
+            small = shrink_map(m, lambda p: in_domain(p) and judge_case(kind, dict(case, map=[[k, v] for k, v in p])) is not None)
+            case = dict(case, map=[[k, v] for k, v in small])
+            report(kind, case, judge_case(kind, case) or why)
+        elif judge_case(kind, {"session": journal + [[kind, case]]}):
+            prefix = core.minimize_session(journal, lambda p: judge_case(kind, {"session": p + [[kind, case]]}) is not None)
+            sess = {"session": prefix + [[kind, case]]}
+            report(kind, sess, judge_case(kind, sess) or why)
+        else:
+            report(kind, case, why + " (only after the cases of this run, not reproduced from a fresh library state)")
+        core.fresh_impl()
+        U.clear_global_state()
+        journal = []
+
     todo = []
     for d in suspects:
         c = d.get("case") or {}
         if d.get("kind") == "map" and in_domain([(k, v) for k, v in c.get("map", [])]):
             todo.append([(k, v) for k, v in c["map"]])
-    todo += [[(k, v) for k, v in c["case"]["map"]] for c in load_corpus() if "map" in c.get("case", {})]
+    for c in load_corpus():
+        cc = c.get("case", {})
+        if "session" in cc:
+            why = judge_case(c.get("kind", "map"), cc)
+            if why:
+                report(c.get("kind", "map"), cc, why)
+        elif "map" in cc:
+            todo.append([(k, v) for k, v in cc["map"]])
     rng = ctx.rng
     gen = itertools.chain(todo, exhaustive_maps(2 if ctx.quick else 3))
     n = 0
@@ -406,33 +458,21 @@ def search(ctx, suspects, budget):
         if time.time() - t0 > budget * 0.6 or len(out) >= 3:
             break
         n += 1
-        why = judge_map(m)
-        if why:
-            small = shrink_map(m, lambda p: in_domain(p) and judge_map(p) is not None)
-            report("map", {"map": [[k, v] for k, v in small]}, judge_map(small) or why)
+        examine("map", m)
     k = 0
     while time.time() - t0 < budget and len(out) < 5 and k < ctx.n(600, 20000):
         k += 1
         m = random_map(rng)
-        why = judge_map(m)
-        if why:
-            small = shrink_map(m, lambda p: in_domain(p) and judge_map(p) is not None)
-            report("map", {"map": [[kk, v] for kk, v in small]}, judge_map(small) or why)
+        examine("map", m)
         how = rng.choice(["sqrt", "pow", "quotient", "same", "same"])
         ints = [(s, int(v) if float(v).is_integer() else v) for s, v in m]
-        why = judge_api(ints, how)
-        if why:
-            small = shrink_map(ints, lambda p: in_domain(p) and judge_api(p, how) is not None)
-            report("api", {"map": [[kk, v] for kk, v in small], "how": how}, judge_api(small, how) or why)
+        examine("api", ints, how)
     ctx.notes.append("oracle: {} enumerated maps, {} random maps with arithmetic / array edits, both styles".format(n, k))
     U.clear_global_state()
     return out[:5]
 
 
 def replay(ctx, v):
+    why = judge_case(v["kind"], v["case"])
     U.clear_global_state()
-    c = v["case"]
-    m = [(k, x) for k, x in c["map"]]
-    why = judge_map(m) if v["kind"] == "map" else judge_api(m, c.get("how", "same"))
-    U.clear_global_state()
-    return Violation(ID, v["kind"], c, why) if why else None
+    return Violation(ID, v["kind"], v["case"], why) if why else None
